@@ -70,8 +70,12 @@ def gen_defn(rng, kind, i=0):
         return gen.linear_in_state_program(rng, n_state=(2, 4), n_control=(1, 3), n_calib=(0, 2), n_sensor=(0, 1),
                                            n_reading=(1, 2), depth=1, n_shared=(0, 0))
     if kind == "direct":
-        return gen.program(rng, n_state=(1, 5), n_control=(0, 3), n_calib=(0, 2), n_sensor=(0, 1),
-                           depth=2 if rng.random() < 0.5 else 3, wraps=(i % 4 == 1))
+        d = gen.program(rng, n_state=(1, 5), n_control=(0, 3), n_calib=(0, 2), n_sensor=(0, 1),
+                        depth=2 if rng.random() < 0.5 else 3, wraps=(i % 4 == 1))
+        if i % 4 == 0:
+            # the definition-time option of ui.Model that rewrites the expressions before compilation
+            d["proactive_simplify"] = True
+        return d
     if kind == "fit":
         return gen.contractive_program(rng, n_state=(1, 2), n_control=(1, 2), n_calib=(0, 1),
                                        n_sensor=(1, 1), n_reading=(1, 2), depth=1, n_shared=(0, 1))
@@ -88,6 +92,8 @@ def run_unit(unit, ctx):
         R.stats.inc("linear_in_state_programs")
     if any(w_ in __import__("json").dumps(defn["model"]) for w_ in ("asinsin", "acoscos", "atantan")):
         R.stats.inc("programs_with_angle_wrap_idioms")
+    if defn.get("proactive_simplify"):
+        R.stats.inc("programs_with_proactive_simplify")
     fp = gen.fingerprint([defn, kind])
     R.fps_all.append(fp)
     if len(defn["control"]) >= 1 and len(defn["state"]) >= 2:
